@@ -112,8 +112,8 @@ REG_LEMMAS_THOROUGH = [
       thorough={"params": {"regions": 2}, "timeout_ms": 5000, "budget": "1700s"}),
     H("txfile.VerifFreelistRemoveRegion", "RemoveRegion of an arbitrary region: exactly the intersection is removed", "<= 2 regions", tiers=("thorough",),
       thorough={"params": {"regions": 2}, "timeout_ms": 5000, "budget": "1700s"}),
-    H("txfile.VerifMergeRegionLists", "mergeRegionLists is the union, sorted and disjoint", "2 x <= 2 regions", tiers=("thorough",),
-      thorough={"params": {"regions": 2}, "timeout_ms": 5000, "budget": "1700s"}),
+    H("txfile.VerifMergeRegionLists", "mergeRegionLists is the union, sorted and disjoint, and a list of its own (the commit trims it in place while the inputs stay the live free lists)", "2 x <= 2 regions",
+      quick={"params": {"regions": 2}, "timeout_ms": 5000}, thorough={"params": {"regions": 2}, "timeout_ms": 5000, "budget": "1700s"}),
 ]
 
 prop("C04", bounds=PROG_BOUNDS, outside=PROG_OUT,
@@ -126,7 +126,13 @@ prop("C04", bounds=PROG_BOUNDS, outside=PROG_OUT,
 # ------------------------------------------------------------------ C11
 prop("C11", bounds=PROG_BOUNDS, outside=PROG_OUT,
      harnesses=variants("txfile.VerifProgOwn", "allocatable + live + meta area + 2 == max pages, extent <= max, FileStats == model after every commit",
-                        {"nops": 3, "ntx": 1}, {"nops": 2, "ntx": 2}, vs=(0, 1, 4, 5), quick_vs=(0, 5)) + [FREECYCLE, ALLOCFREE_REOPEN])
+                        {"nops": 3, "ntx": 1}, {"nops": 2, "ntx": 2}, vs=(0, 1, 4, 5), quick_vs=(0, 5)) + [FREECYCLE, ALLOCFREE_REOPEN,
+         H("txfile.VerifRegionRoundTrip", "free regions survive serialization exactly (a region decoded with a wrong count would leak or duplicate pages after a reopen)", "id<2^55, count in [1,2^32)"),
+         H("txfile.VerifFreelistSerialize", "multi-page free list round trip: the reopened file counts the same free pages", "<= 2 meta + 4 data regions", thorough={"params": {"meta": 3, "data": 5}, "max_paths": 200000, "budget": "1200s"}),
+         H("txfile.VerifFault", "transactions that end with an I/O failure (failed Commit; Rollback after a failed Flush write) give every page back: allocator snapshot, space identity and stats unchanged", "nops=1",
+           quick={"params": {"nops": 1}}, thorough={"params": {"nops": 2}, "max_paths": 300000, "budget": "1500s"}),
+         H("txfile.VerifProgAbort", "aborted transactions (Rollback / Close / failing Commit) return every page: counting identity after abort", "nops=2, pre=1",
+           quick={"params": {"nops": 2, "pre": 1}}, thorough={"params": {"nops": 2, "pre": 2}, "max_paths": 300000, "budget": "1200s"})])
 
 CHECKS["C10"]["harnesses"] += [
     H("txfile.VerifFreelistSerialize", "readFreeList(writeFreeLists(meta, data)) == (meta, data) over several 64-byte pages; chain links exactly the allocated pages; the predictor never under-estimates", "<= 2 meta + 4 data regions, 64-bit ids, 32-bit counts",
@@ -215,6 +221,8 @@ prop("C14",
                   thorough={"params": {"rounds": 3, "resizefaults": 5}, "max_paths": 300000}),
                 H("txfile.VerifResizeSpecial", "a file created unbounded gets a limit; a bounded file whose overflow area is in use gets a larger limit: data, root and overwrite log intact, header carries the new limit, "
                   "allocations after the resize own their pages, partition, plain reopen reports the limit", "2 scenarios x 2 new limits x prealloc x 1-3 overflow overwrites"),
+                H("txfile.VerifMergeRegionLists", "the free lists computed by a commit (also by the page-releasing transaction of a shrink) are lists of their own: a failing release transaction must not have touched the live lists", "2 x <= 2 regions",
+                  quick={"params": {"regions": 2}, "timeout_ms": 5000}, thorough={"params": {"regions": 2}, "timeout_ms": 5000, "budget": "1700s"}),
                 H("txfile.VerifResize", "same with InitMetaArea=8 (free regions border the end of the file, so the page-releasing transaction of a shrink runs)", "metaarea=8",
                   quick={"params": {"metaarea": 8}}, thorough={"params": {"metaarea": 8, "rounds": 3, "resizefaults": 5}, "max_paths": 300000})])
 
@@ -278,6 +286,8 @@ prop("C05", bounds=PQ_BOUNDS, outside=PQ_OUT,
            thorough={"params": {"events": 2, "nsizes": 6}, "max_paths": 400000, "budget": "1500s"}),
          H("pq.VerifQueueChunks", "a multi-page event written in 2-3 large Write calls (3000/2500/996/1992/700 bytes) after a small event: the automatic flush inside Write must not disturb anything", "3 first sizes x 5^2..5^3 chunkings",
            thorough={"params": {"wbuf": 8192}}),
+H("pq.VerifQueueFault", "a flush / ACK whose transaction fails (injected write/sync failure, i.e. after the pages were allocated): error, the buffered events are kept and flushed by the retry, nothing lost or duplicated, counters exact",
+           "2 sizes x 2 kinds x 3 ordinals x flush/ACK x reopen", quick={"params": {"nsizes": 2}}, thorough={"params": {"nsizes": 4, "faultords": 5}, "max_paths": 400000, "budget": "1500s"}),
          H("pq.VerifPqPosition", "position encoding round trip for every page id < 2^40, offset in [28,1024], event id; id ordering with wrap-around", "full-width symbolic"),
      ])
 
@@ -298,6 +308,8 @@ prop("C12", bounds="bounded file of 64 pages, events of 2009 / 993 / 4980 bytes 
      harnesses=[
          H("pq.VerifQueueFull", "full file: error instead of loss, read+ACK succeed, buffered events flushed later in order, space bound after full ACK, second fill cycle as large as the first", "3 sizes x 2 ACK steps x 2 cycles",
            thorough={"params": {"wbuf": 8192}}),
+         H("pq.VerifQueueFault", "a flush / ACK whose transaction fails (injected write/sync failure, i.e. after the pages were allocated): error, the buffered events are kept and flushed by the retry, nothing lost or duplicated, counters exact",
+           "2 sizes x 2 kinds x 3 ordinals x flush/ACK x reopen", quick={"params": {"nsizes": 2}}, thorough={"params": {"nsizes": 4, "faultords": 5}, "max_paths": 400000, "budget": "1500s"}),
      ])
 
 prop("C17", bounds=PQ_BOUNDS, outside=PQ_OUT,
@@ -310,6 +322,8 @@ prop("C17", bounds=PQ_BOUNDS, outside=PQ_OUT,
          H("pq.VerifQueueFull", "counters on a full file and after draining", "3 sizes"),
          H("pq.VerifQueueChunks", "Flushed callback and counters when Write itself flushes completed events (multi-page event in large chunks)", "3 first sizes x chunkings"),
          H("pq.VerifQueueMisuse", "a rejected ACK (more than pending) leaves Pending / Active unchanged", "11 cases"),
+         H("pq.VerifQueueFault", "a flush / ACK whose transaction fails (injected write/sync failure, i.e. after the pages were allocated): error, the buffered events are kept and flushed by the retry, nothing lost or duplicated, counters exact",
+           "2 sizes x 2 kinds x 3 ordinals x flush/ACK x reopen", quick={"params": {"nsizes": 2}}, thorough={"params": {"nsizes": 4, "faultords": 5}, "max_paths": 400000, "budget": "1500s"}),
      ])
 
 prop("C13", bounds=PQ_BOUNDS + "; one producer goroutine (Write, Next, optional Flush per event, final Flush) and one consumer goroutine (Begin, Next, Read, Done, ACK(1) per event, bounded polling) "
@@ -327,14 +341,14 @@ prop("C13", bounds=PQ_BOUNDS + "; one producer goroutine (Write, Next, optional 
 
 prop("C18",
      bounds="sequences of 3 (thorough 4) symbolic steps on one path out of: Open, Open with invalid options, Open with both headers damaged, Open with a failure of the first write / short write / sync / truncate / size / mmap call, "
-            "Open when the OS refuses to open the file, Close; plus the FlagWaitLock scenario with two goroutines. Real txfile.Open/File.Close and osfs/lock.go; "
+            "Open when the OS refuses to open the file, Close, a write transaction on the open File (bounded or unbounded file growing by 70 pages; optional write/sync/mmap failure at Commit); plus the FlagWaitLock scenario with two goroutines. Real txfile.Open/File.Close and osfs/lock.go; "
             "the OS below osfs.File is a model: file content = simulated disk per path, flock = one Boolean per lock-file path (TryLock succeeds iff free, Lock blocks while held)",
      outside="advisory flock semantics between processes (the stub's contract), longer sequences; natively the same sequences run on real files with the real flock, except injected I/O failures",
      stubs=["osfs.Open, (*osfs.File).{Size,Truncate,MMap,MUnmap,Sync}, (*os.File).{ReadAt,WriteAt,Close,Name} -> harness model of the OS (one simulated disk per path)",
             "gofrs/flock TryLock/Lock/Unlock -> one Boolean per path"],
      harnesses=[
-         H("txfile.VerifPathLock", "lock held exactly while a File is open; second Open fails with a lock error; after Close and after every failing Open the lock is free, no descriptor is left open, the path opens again", "3 steps x 6 step kinds",
-           thorough={"params": {"steps": 4}, "max_paths": 400000, "budget": "1200s"}, replayable_params={"nofault": 1}),
+         H("txfile.VerifPathLock", "lock held exactly while a File is open; second Open fails with a lock error; after Close (also of a File whose commit failed) and after every failing Open the lock is free, no descriptor is left open, the path opens again", "3 steps x 7 step kinds",
+           thorough={"params": {"steps": 4}, "max_paths": 400000, "budget": "1200s"}, replayable_params={"nofault": 1}, engine_replay=True),
          H("txfile.VerifPathLockWait", "FlagWaitLock: the second Open blocks until Close, then succeeds; a plain Open meanwhile fails", "2 goroutines"),
          H("txfile.VerifPathLockClose", "while File.Close waits for an active transaction the path lock stays held and a second Open fails", "read-only / write transaction"),
      ])
